@@ -180,6 +180,9 @@ pub fn pool(seed: u64) -> Pool {
     // key mods (the target column count of a mania conversion)
     c.insert("K4".to_string(), Cfg::default().with_acronyms("4K"));
     c.insert("K7".to_string(), Cfg::default().with_acronyms("7K"));
+    // lazer DifficultyAdjust overrides that leave everything else as in "N": osu! circle size 7, catch circle size 7
+    c.insert("E".to_string(), Cfg { da_cs: Some((7.0, 0)), ..Default::default() });
+    c.insert("F".to_string(), Cfg { da_cs: Some((7.0, 2)), ..Default::default() });
     c.insert("D".to_string(), Cfg { mods: 16, da_scroll: Some(0.5), od: Some((2.0, false)), clock_rate: Some(0.8), random_seed: Some(1234), ..Default::default() });
     Pool { texts, cfgs: c }
 }
@@ -270,6 +273,7 @@ impl<'a> Runner<'a> {
             "strains" => format!("{:?}", d.strains(&self.maps[&c.m])),
             "perf" => format!("{:?}", Performance::new(&self.maps[&c.m]).difficulty(d.clone()).accuracy(94.2).misses(1).calculate()),
             "attrs" => format!("{:?}", self.maps[&c.m].attributes().difficulty(&d).build()),
+            "calccatch" => format!("{:?}", d.calculate_for_mode::<rosu_pp::catch::Catch>(&self.maps[&c.m])),
             "gnext" => {
                 let map = &self.maps[&c.m];
                 let e = self.grads.entry(c.h.clone()).or_insert_with(|| (GradualDifficulty::new(d.clone(), map), 0));
@@ -372,6 +376,8 @@ fn exec_plain(pool: &Pool, maps: &Shared, c: &Call) -> (String, String, bool) {
         "strains" => format!("{:?}", d.strains(&maps[&c.m])),
         "perf" => format!("{:?}", Performance::new(&maps[&c.m]).difficulty(d.clone()).accuracy(94.2).misses(1).calculate()),
         "bpm" => format!("{:?}", maps[&c.m].bpm()),
+        "attrs" => format!("{:?}", maps[&c.m].attributes().difficulty(&d).build()),
+        "calccatch" => format!("{:?}", d.calculate_for_mode::<rosu_pp::catch::Catch>(&maps[&c.m])),
         "decode" => format!("{:?}", Beatmap::from_bytes(pool.texts[&c.m].as_bytes())),
         // conversions (the settings' mods decide the key count), by reference, and the calculation for a target mode on the source
         "tomania" => format!("{:?}", maps[&c.m].convert_ref(GameMode::Mania, &cfg.game_mods()).map(|m| m.into_owned())),
@@ -507,6 +513,16 @@ pub fn threads_main(args: &[String]) -> i32 {
         }
         for op in ["totaiko", "tocatch"] {
             plain.push(Call { op: op.into(), m: m.into(), cfg: "-".into(), h: "-".into() });
+        }
+    }
+    // jobs that differ ONLY in a lazer DifficultyAdjust override (same map values, same HR / EZ, same clock rate)
+    for (m, cfgs, ops) in [("m1", ["N", "E"], ["calc", "attrs", "perf"]), ("m5", ["N", "E"], ["calc", "attrs", "perf"]), ("m3", ["N", "F"], ["calc", "attrs", "perf"]), ("m1", ["N", "F"], ["calccatch", "calccatch", "calccatch"])] {
+        for cfg in cfgs {
+            for op in ops {
+                if !plain.iter().any(|c| c.op == op && c.m == m && c.cfg == cfg) {
+                    plain.push(Call { op: op.into(), m: m.into(), cfg: cfg.into(), h: "-".into() });
+                }
+            }
         }
     }
     {
